@@ -16,6 +16,7 @@ Decided here (each a necessary condition; the full policy model over histories i
 from __future__ import annotations
 
 import ast
+import re
 from dataclasses import dataclass, field, replace
 
 from ..cfg import ENTRY, EXIT, RAISE, header_parts
@@ -791,18 +792,23 @@ def rule_policy(ctx: Ctx) -> None:
                     ctx.add("3-policy", init, a_, v.id == own, f"{ci.name}.{fld} <- parameter `{v.id}`" if v.id == own else
                             f"`{norm(a_)[:60]}` stores the parameter `{v.id}` in the attribute of the parameter `{own}`: the value the caller passed as `{own}` is ignored", key=f"wiring {ci.name}.{fld}")
     ctx.floor("3-policy.wiring", n_w, 8)
-    # ... on EVERY hit: each path to a return of something other than the literal None (the miss) passes the append
+    # ... on EVERY hit: the append is guarded by nothing but the outcome of the lookup of this key.  A guard on the STATE of the
+    # cache (`len(queue) >= max_size`, a flag of the object) makes the refresh conditional: a key that was read recently is then
+    # evicted as if it had not been
     gcfg = ctx.cfg(get)
-    app_nodes = set(gcfg.nodes(lambda s_: isinstance(s_, ast.Expr) and isinstance(s_.value, ast.Call) and isinstance(s_.value.func, ast.Attribute) and s_.value.func.attr == "append" and _self_attr(s_.value.func.value) == "_cache_queue"))
-    hits = gcfg.nodes(lambda s_: isinstance(s_, ast.Return) and s_.value is not None and not (isinstance(s_.value, ast.Constant) and s_.value.value is None))
-    if app_nodes and hits and all(x in [a_ for f_ in [get] for a_ in ast.walk(f_.node)] for x in app):
-        skipping = [h for h in hits if not gcfg.must_pass(ENTRY, h, app_nodes, normal_only=True)]
-        wp = gcfg.witness_path(ENTRY, skipping[0], app_nodes) if skipping else None
-        ctx.add("3-policy", get, gcfg.stmt[skipping[0]] if skipping else get.node, not skipping, "every hit refreshes the key's recency" if not skipping else
-                "a hit can be answered without moving the key to the back of the queue (the refresh is conditional): a key that was read recently is evicted as if it had not been - not LRU",
-                key="lru-get-always-moves-back", path=gcfg.describe(wp, get.module.relpath) if wp else None)
+    kprm = [p_ for p_ in get.param_names() if p_ != "self"][0]
+    app_nodes = gcfg.nodes(lambda s_: isinstance(s_, ast.Expr) and isinstance(s_.value, ast.Call) and isinstance(s_.value.func, ast.Attribute) and s_.value.func.attr == "append" and _self_attr(s_.value.func.value) == "_cache_queue")
+    if app_nodes:
+        from ..flow import guard_facts
+
+        facts = [t for n_ in app_nodes for t, _pol in guard_facts(gcfg, Defs(get), n_)]
+        on_state = [t for t in facts if not re.search(rf"\b{re.escape(kprm)}\b", t) and ("self." in t or "len(" in t)]
+        unknown = [t for t in facts if not re.search(rf"\b{re.escape(kprm)}\b", t) and t not in on_state]
+        ctx.tri("3-policy", get, gcfg.stmt[app_nodes[0]], not on_state and not unknown, bool(on_state), "every hit refreshes the key's recency (the refresh depends on the lookup only)",
+                f"the refresh of the recency is skipped unless `{on_state[0] if on_state else ''}`: a hit can be answered without moving the key to the back of the queue, so a key that was read recently is evicted "
+                "as if it had not been - not LRU", f"the refresh is guarded by `{unknown[0] if unknown else ''}`, which this rule cannot relate to the lookup", key="lru-get-always-moves-back")
     else:
-        ctx.add("3-policy", get, get.node, None, "UNDECIDED: the refresh of the recency happens in a helper / the hit returns were not recognised", key="lru-get-always-moves-back")
+        ctx.add("3-policy", get, get.node, None, "UNDECIDED: the refresh of the recency happens in a helper", key="lru-get-always-moves-back")
     hyb = ctx.prog.cls(f"{MOD}.HybridCache")
     hsc = Scope(ctx, hyb.methods["put"])
     sel = _selected_then_destroyed(hsc, ("pop",))
